@@ -41,6 +41,19 @@ int main() {
     uint32_t mainw = InstDB::main_opcode_table[ii._main_opcode_index] | ii._main_opcode_value;
     uint32_t altw = InstDB::alt_opcode_table[ii._alt_opcode_index];
     printf("INST %u %s %u %u %u %u %u %u\n", id, s.data(), unsigned(ii._encoding), mainw, altw, unsigned(ci.flags()), unsigned(ci.avx512_flags()), ci.broadcast_size());
+    // the validator's signatures that contain a memory operand restricted to a fixed base register (kFlagMemBase): the explicit forms
+    // of implicit memory operands.  SIG id name mode opcount {flags regmask}*
+    for (uint32_t k = 0; k < ci._inst_signature_count; k++) {
+      const InstDB::InstSignature& sg = InstDB::_inst_signature_table[ci._inst_signature_index + k];
+      bool fixed = false;
+      for (uint32_t j = 0; j < sg.op_count(); j++)
+        if (sg.op_signature(j).has_flag(InstDB::OpFlags::kFlagMemBase)) fixed = true;
+      if (!fixed) continue;
+      printf("SIG %u %s %u %u", id, s.data(), unsigned(sg.mode()), unsigned(sg.op_count()));
+      for (uint32_t j = 0; j < sg.op_count(); j++)
+        printf(" %llu %u", (unsigned long long)uint64_t(sg.op_signature(j).flags()), unsigned(sg.op_signature(j).reg_mask()));
+      printf("\n");
+    }
   }
   return 0;
 }
